@@ -374,6 +374,13 @@ def job_options(ctx):
         cases.append((f'OLEQ frame={sp}', lambda a, m, sp=sp: F.OLEQ(a, m, frame=sp, magnetic_ref=60.0).Q))
     for sp in ('eig', 'EIG', 'Symbolic', 'NEWTON', 'newton'):
         cases.append((f'FLAE method={sp}', lambda a, m, sp=sp: F.FLAE(a, m, method=sp, magnetic_dip=60.0).Q))
+    for rep in ('quaternion', 'rotmat', 'angles'):
+        cases.append((f'Tilt representation={rep} (keyword omitted vs given)', lambda a, m, rep=rep: F.Tilt(a, m, representation=rep).Q))
+        for aa in (True, False):          # the legacy keyword the constructor still reads
+            cases.append((f'Tilt representation={rep} as_angles={aa}', lambda a, m, rep=rep, aa=aa: F.Tilt(a, m, representation=rep, as_angles=aa).Q))
+    for aa in (True, False):
+        cases.append((f'Tilt as_angles={aa}', lambda a, m, aa=aa: F.Tilt(a, m, as_angles=aa).Q))
+        cases.append((f'Tilt acc only as_angles={aa}', lambda a, m, aa=aa: F.Tilt(a, as_angles=aa).Q))
     for nm, mk in cases:
         try:
             np.random.seed(9); o1 = np.asarray(mk(a1.copy(), m1.copy()))
@@ -577,11 +584,19 @@ def job_protocol(ctx, k):
         QA = QuaternionArray(X.copy(), versors=False, order=order)
         for nm, arr_fn, one_fn in (('conjugate', lambda: np.asarray(QA.conjugate(), float), lambda i: np.asarray(Quaternion(X[i].copy(), versor=False, order=order).conjugate, float)),
                                    ('conj', lambda: np.asarray(QA.conj(), float), lambda i: np.asarray(Quaternion(X[i].copy(), versor=False, order=order).conj, float)),
-                                   ('w,x,y,z', lambda: np.c_[QA.w, QA.x, QA.y, QA.z], lambda i: np.array([getattr(Quaternion(X[i].copy(), versor=False, order=order), c) for c in 'wxyz'], float))):
+                                   ('w,x,y,z', lambda: np.c_[QA.w, QA.x, QA.y, QA.z], lambda i: np.array([getattr(Quaternion(X[i].copy(), versor=False, order=order), c) for c in 'wxyz'], float)),
+                                   ('v', lambda: np.asarray(QA.v, float), lambda i: np.asarray(Quaternion(X[i].copy(), versor=False, order=order).v, float)),
+                                   ('to_array', lambda: np.asarray(QA.to_array(), float), lambda i: np.asarray(Quaternion(X[i].copy(), versor=False, order=order).to_array(), float)),
+                                   ('to_angles', lambda: np.nan_to_num(np.asarray(QA.to_angles(), float), nan=77.0), lambda i: np.nan_to_num(np.asarray(Quaternion(X[i].copy(), versor=False, order=order).to_angles(), float), nan=77.0)),
+                                   ('is_pure/is_real/is_versor/is_identity', lambda: np.c_[QA.is_pure(), QA.is_real(), QA.is_versor(), QA.is_identity()].astype(float),
+                                    lambda i: np.array([getattr(Quaternion(X[i].copy(), versor=False, order=order), c)() for c in ('is_pure', 'is_real', 'is_versor', 'is_identity')], float))):
             try:
-                Bv = arr_fn()
+                with np.errstate(all='ignore'):
+                    Bv = arr_fn()
                 for i in range(len(X)):
-                    ctx.close(Bv[i], one_fn(i), 1e-14, f'versors=False: QuaternionArray.{nm} row = Quaternion(versor=False).{nm} (non-unit rows keep their norm)', f'order={order} row={i} k{k}')
+                    with np.errstate(all='ignore'):
+                        one_i = one_fn(i)
+                    ctx.close(Bv[i], one_i, 1e-14, f'versors=False: QuaternionArray.{nm} row = Quaternion(versor=False).{nm} (non-unit rows keep their norm)', f'order={order} row={i} k{k}')
             except Exception as ex:
                 ctx.fail(f'versors=False: {nm} raises', f'order={order} k{k}', repr(ex)[:160], 'rows')
         ctx.cls('protocol:versors=False')
